@@ -240,7 +240,7 @@ Theorem ObsInv_step fx T U w s :
   InvU U w -> ObsInv U w -> ok_step U w s -> ObsInv (grow U (new_op w s)) (step fx T w s).1.
 Proof.
   intros I OI Hok. destruct (step_preserves fx T U w s I Hok) as [_ L].
-  destruct s as [n k v lease|n k|n sender b|n|m n|i j late|f| |n|n p|n p|n p|n s filter]; simpl in *.
+  destruct s as [n k v lease|n k|n sender b|n|m n|i j late|f| |n|n p|n p|n p|n s filter|n s]; simpl in *.
   - destruct (ObsInv_write U w n k v lease false I OI Hok) as [X1 X2]. destruct fx; assumption.
   - destruct (ObsInv_write U w n k 0 0 true I OI Hok) as [X1 X2]. destruct fx; assumption.
   - apply ObsInv_grow_None, ObsInv_ingest_at; assumption.
@@ -277,6 +277,12 @@ Proof.
   - apply ObsInv_grow_None. eapply (ObsInv_same_logs U w); [|exact L|exact OI].
     unfold subscribe. destruct (w_nodes w !! n) as [nd|] eqn:En; [|eauto].
     destruct (n_subs nd !! s); [eauto|].
+    intros m ndm Hm. destruct (upd_back w n nd _ (w_msgs w) (w_fbs w) m ndm En Hm) as (nd0 & H0 & Eq & Ne).
+    exists nd0. split; [exact H0|]. destruct (decide (m = n)) as [->|Hmn].
+    + destruct (Eq eq_refl) as [-> ->]. reflexivity.
+    + rewrite (Ne Hmn). reflexivity.
+  - apply ObsInv_grow_None. eapply (ObsInv_same_logs U w); [|exact L|exact OI].
+    unfold stall. destruct (w_nodes w !! n) as [nd|] eqn:En; [|eauto].
     intros m ndm Hm. destruct (upd_back w n nd _ (w_msgs w) (w_fbs w) m ndm En Hm) as (nd0 & H0 & Eq & Ne).
     exists nd0. split; [exact H0|]. destruct (decide (m = n)) as [->|Hmn].
     + destruct (Eq eq_refl) as [-> ->]. reflexivity.
@@ -439,7 +445,7 @@ Definition applies_recovery (s : step_t) : bool :=
 
 Theorem step_complete fx T w s : applies_recovery s = false -> log_rel w (step fx T w s).1.
 Proof.
-  intros Hs. destruct s as [n k v lease|n k|n sender b|n|m n|i j late|f| |n|n p|n p|n p|n s filter]; simpl in *; try discriminate.
+  intros Hs. destruct s as [n k v lease|n k|n sender b|n|m n|i j late|f| |n|n p|n p|n p|n s filter|n s]; simpl in *; try discriminate.
   - apply log_rel_write.
   - apply log_rel_write.
   - apply log_rel_ingest_at.
@@ -459,6 +465,7 @@ Proof.
     apply (log_rel_upd_same w n nd); [exact En|reflexivity|reflexivity].
   - unfold subscribe. destruct (w_nodes w !! n) as [nd|] eqn:En; [|apply log_rel_refl].
     destruct (n_subs nd !! s); [apply log_rel_refl|].
+    apply (log_rel_upd_same w n nd); [exact En|reflexivity|reflexivity].  - unfold stall. destruct (w_nodes w !! n) as [nd|] eqn:En; [|apply log_rel_refl].
     apply (log_rel_upd_same w n nd); [exact En|reflexivity|reflexivity].
 Qed.
 
